@@ -1,6 +1,16 @@
 import MorfuseModel.Archive.ValueLemmas
+import MorfuseModel.Archive.TablesLemmas
 /-! Round trip of mixed write sequences (calls of the Archiver and script values). -/
 namespace Morfuse.Archive
+
+theorem keyCalls_table (t : List Lbl) (k : Option Bytes) : (encItems t (keyCalls k)).1 = t := by
+  cases k <;> simp [keyCalls, encItems, encItem]
+
+theorem keyCalls_newFix (T : List Lbl) (k : Option Bytes) : newFix T (keyCalls k) = [] := by
+  cases k <;> simp [keyCalls, newFix, newFixItem]
+
+theorem keyCalls_regLabels (k : Option Bytes) : regLabels (keyCalls k) = [] := by
+  cases k <;> simp [keyCalls, regLabels, regLabelsItem]
 
 theorem expand_table : (ws : List WItem) → (t : List Lbl) → (encItems t (expand t ws).2).1 = (expand t ws).1
   | [], t => by simp [expand, encItems]
@@ -12,21 +22,29 @@ theorem expand_table : (ws : List WItem) → (t : List Lbl) → (encItems t (exp
     rw [encItems_append]
     simp only [valCalls_table]
     exact expand_table ws _
+  | .named s k v :: ws, t => by
+    simp only [expand]
+    rw [encItems_append, keyCalls_table, encItems_append]
+    simp only [valCalls_table]
+    exact expand_table ws _
 
 def rawW (T : List Lbl) : WItem → WItem
   | .item i => .item (rawItem T i)
   | .value s v => .value s (rawValue T v)
+  | .named s k v => .named s k (rawValue T v)
 
 /-- per-call hypotheses along the sequence (the object table is threaded as the writer does) -/
 def WFWs (cfg : Cfg) (classes : List Bytes) : List Lbl → List WItem → Prop
   | _, [] => True
   | t, .item i :: ws => WFItem cfg classes i ∧ WFWs cfg classes (encItem t i).1 ws
   | t, .value s v :: ws => WFValue cfg t s v ∧ WFWs cfg classes (valCalls t s v).1 ws
+  | t, .named s k v :: ws => WFKey cfg k ∧ WFValue cfg t s v ∧ WFWs cfg classes (valCalls t s v).1 ws
 
 def depthW : List WItem → Nat
   | [] => 0
   | .item _ :: ws => depthW ws
   | .value _ v :: ws => max (depth v) (depthW ws)
+  | .named _ _ v :: ws => max (depth v) (depthW ws)
 
 theorem readW_enc (cfg : Cfg) (classes : List Bytes) (T : List Lbl) (hT : T.length < nullIdx)
     (hA : T.length * 8 < cfg.allocLimit) :
@@ -73,7 +91,34 @@ theorem readW_enc (cfg : Cfg) (classes : List Bytes) (T : List Lbl) (hT : T.leng
     rw [readW_enc cfg classes T hT hA ws (valCalls t s v).1 tail _ _ _ fuel (by omega) hp hw.2 (by simp [hR]) (by omega)]
     simp [Res.bind, Nat.add_assoc]
 
+  | .named s k v :: ws, t, tail, pos, R, F, fuel, hd, hp, hw, hR, hl => by
+    simp only [WFWs] at hw
+    simp only [depthW] at hd
+    simp only [expand, encItems_append, keyCalls_table, valCalls_table] at hp hl
+    have hp1 : (valCalls t s v).1 <+: T := by
+      have := encItems_prefix (expand (valCalls t s v).1 ws).2 (valCalls t s v).1
+      rw [expand_table] at this
+      exact this.trans hp
+    have hpt : t <+: T := by
+      have := encItems_prefix (valCalls t s v).2 t
+      rw [valCalls_table] at this
+      exact this.trans hp1
+    simp only [List.length_append] at hl
+    simp only [expand, encItems_append, keyCalls_table, valCalls_table, schemaW, readW, List.append_assoc, List.map_cons,
+      rawW, regLabels_append, newFix_append, List.foldl_append, keyCalls_regLabels, keyCalls_newFix, List.foldl_nil,
+      List.append_nil]
+    rw [readKey_honest (T := T) cfg k hw.1 t _ pos R F (by rw [keyCalls_table]; exact hpt) hR]
+    simp only [Res.bind, keyCalls_newFix, List.nil_append]
+    have := readValue_enc cfg T hT hA v fuel s t ((encItems (valCalls t s v).1 (expand (valCalls t s v).1 ws).2).2 ++ tail)
+      (pos + (encItems t (keyCalls k)).2.length) R F [] (by omega) hp1 hw.2.1 hR (by omega)
+    simp only [List.append_nil] at this
+    rw [this]
+    simp only [Res.bind]
+    rw [readW_enc cfg classes T hT hA ws (valCalls t s v).1 tail _ _ _ fuel (by omega) hp hw.2.2 (by simp [hR]) (by omega)]
+    simp [Res.bind, Nat.add_assoc]
+
 /-! ### `Close` on values -/
+
 
 mutual
 /-- non-null object references inside a value -/
@@ -93,6 +138,7 @@ def wTargets : List WItem → List Lbl
   | [] => []
   | .item i :: ws => ptrTargetsItem i ++ wTargets ws
   | .value _ v :: ws => vTargets v ++ wTargets ws
+  | .named _ _ v :: ws => vTargets v ++ wTargets ws
 
 mutual
 theorem fixValue_raw (T Rf : List Lbl) : (v : Value) →
@@ -152,6 +198,10 @@ theorem fixW_raw (T Rf : List Lbl) : (ws : List WItem) →
     simp only [wTargets, List.mem_append] at h
     simp only [List.map_cons, rawW, fixW]
     rw [fixValue_raw T Rf v (fun o ho => h o (Or.inl ho)), fixW_raw T Rf ws (fun o ho => h o (Or.inr ho))]
+  | .named s k v :: ws, h => by
+    simp only [wTargets, List.mem_append] at h
+    simp only [List.map_cons, rawW, fixW]
+    rw [fixValue_raw T Rf v (fun o ho => h o (Or.inl ho)), fixW_raw T Rf ws (fun o ho => h o (Or.inr ho))]
 
 mutual
 theorem vTargets_ne_zero : (v : Value) → ∀ o ∈ vTargets v, o ≠ 0
@@ -184,6 +234,11 @@ theorem wTargets_ne_zero : (ws : List WItem) → ∀ o ∈ wTargets ws, o ≠ 0
     · exact ptrTargetsItem_ne_zero i o h
     · exact wTargets_ne_zero ws o h
   | .value _ v :: ws => by
+    simp only [wTargets, List.mem_append]
+    rintro o (h | h)
+    · exact vTargets_ne_zero v o h
+    · exact wTargets_ne_zero ws o h
+  | .named _ _ v :: ws => by
     simp only [wTargets, List.mem_append]
     rintro o (h | h)
     · exact vTargets_ne_zero v o h
